@@ -320,3 +320,4 @@ M("C20", "C20.options", _SE, "        value = mapping[key]\n        if isinstanc
 M("C19", "C19.enabled", _IV, "            if len(enabled) == 1:\n                choice = list(enabled)[0]\n            else:\n                choice = Options(enabled)\n            return choice", "            return Options(enabled)", "c19-single-item-through-options")
 M("C13", "C13.priority", _IV, "        block = body\n        for interrupt in interrupts:\n            if interrupt.isEnabled or interrupt.isRunning:\n                block = interrupt\n                break", "        enabled = [i for i in interrupts if i.isEnabled]\n        running = [i for i in interrupts if i.isRunning]\n        block = (enabled or running or [body])[0]", "c13-enabled-before-running")
 RF("C13", _IV, "        block = body\n        for interrupt in interrupts:\n            if interrupt.isEnabled or interrupt.isRunning:\n                block = interrupt\n                break", "        live = [i for i in interrupts if i.isRunning or i.isEnabled]\n        block = live[0] if live else body", "c13-rf-selection-as-comprehension")
+M("C13", "C13.invariants", _IV, "            yield result\n            behavior.checkInvariants(agent, *behavior._args, **behavior._kwargs)", "            yield result\n            if conditions:\n                behavior.checkInvariants(agent, *behavior._args, **behavior._kwargs)", "c13-invariant-recheck-conditional")
